@@ -461,16 +461,18 @@ def unchanged_all(out):
 
 class C19(Prop):
     pid = "C19"
-    theorems = ["C19_reject_guarded", "C19_reject_frame_generic", "C19_reject_frame_repaired",
-                "C19_transform_never_writes", "C19_refit_refuted", "C19_refit_current_all_classes_refuted",
-                "C19_unguarded_refuted", "C19_accept_valid"]
+    theorems = ["C19_reject_guarded", "C19_reject_frame_generic", "C19_frame_generic_fitted",
+                "C19_reject_frame_current", "C19_reject_frame_transform_init", "C19_transform_never_writes",
+                "C19_unguarded_refuted", "C19_crash_gaps_refuted", "C19_accept_valid",
+                "C19_verdict_zero_sound", "C19_predicate_spec", "C19_before_fix_refit_refuted",
+                "C19_before_fix_refit_all_classes_refuted"]
     rule = ("one case = (class among the 9 carver/discretizer classes, entry point init/fit/refit/transform, "
             "ONE malformed class injected at a random position (row / column / permutation drawn from the "
             "case's PRNG) into an otherwise valid 40-80 row sample, train or dev side); every expressible "
             "(class, entry point, malformed class, variant) triple is generated at least once per run "
             "(quick: once + random extra, thorough: 6x); observable: exception class, and for objects "
             "fitted before the call values_orders / json.dumps(to_json()) / transform(X_valid) against the "
-            "snapshot taken before the call; compared in Coq with run_call of the step list of the class; "
+            "snapshot taken before the call; compared in Coq with run_call of the CURRENT step list of the class; "
             "non-trivial = malformed case whose call was reached (first fit succeeded); distinct = "
             "(class, entry, malformed class, variant, outcome, unchanged) signature")
     assumptions = ["input abstracted to the boolean record of Model/Validate.v by the harness (which "
@@ -479,11 +481,20 @@ class C19(Prop):
                    "state equality observed through values_orders, to_json() and transform on one valid frame"]
 
     def corpus(self):
-        return []
+        """minimised failing cases kept from earlier runs (corpus/findings/C19-*.json), run first"""
+        import glob
+        import os
+        cs = []
+        for fn in sorted(glob.glob(os.path.join(C.VERIF, "corpus", "findings", "C19-*.json"))):
+            try:
+                cs.append(json.load(open(fn))["case"])
+            except (OSError, ValueError, KeyError):
+                continue
+        return cs
 
     def generate(self, rng, tier):
         cases = []
-        reps = 1 if tier == "quick" else 6
+        reps = 1 if tier == "quick" else 12
         # the second fit of a fitted object first (several samples and feature sets per class)
         for _ in range(4 * reps):
             for cls in CLASSES:
@@ -636,16 +647,20 @@ class C19(Prop):
         if ep == "refit" and res == "ok":
             sigs.append(f"second_fit_accepted:{cls}")
         if res in ("ok", "other"):
-            if cls == "ContinuousDiscretizer" and ep in ("fit", "refit"):
-                sigs.append("no_prepare_data:ContinuousDiscretizer")
-            elif mal == "x_not_frame" and var == "none":
+            # the three known findings, narrowly
+            if mal == "x_not_frame" and var == "none" and ep == "fit" and res == "other":
                 sigs.append("x_none_not_asserted")
+            elif mal == "quant_str" and ep == "transform" and res == "other":
+                sigs.append("quant_str_at_transform_not_asserted")
+            elif mal == "ordinal_unknown" and cls == "OrdinalDiscretizer" and ep == "fit" and res == "ok":
+                sigs.append("ordinal_unknown_accepted:OrdinalDiscretizer")
+            # repaired mechanisms (a regression shows up under these names)
+            elif mal == "quant_str" and cls == "ContinuousDiscretizer" and ep in ("fit", "refit"):
+                sigs.append("quant_str_at_fit_not_asserted:ContinuousDiscretizer")
+            elif cls == "ContinuousDiscretizer" and ep in ("fit", "refit"):
+                sigs.append("no_prepare_data:ContinuousDiscretizer")
             elif mal == "index_mismatch" and var == "shorter":
                 sigs.append("index_length_mismatch_not_asserted")
-            elif mal == "quant_str" and ep == "transform":
-                sigs.append("quant_str_at_transform_not_asserted")
-            elif mal == "ordinal_unknown" and cls == "OrdinalDiscretizer":
-                sigs.append("ordinal_unknown_accepted:OrdinalDiscretizer")
             elif mal == "feature_overlap" and cls == "Discretizer":
                 sigs.append("feature_overlap_accepted:Discretizer")
             elif mal == "y_str" and cls == "ContinuousCarver":
